@@ -89,5 +89,12 @@ PROPS = {
                      "forward bound (40+4n)*2^-24*(|kp e| + |ki| sum|addend| + |kd|(|e|+|e_prev|)/dt), n = samples in the run; largest observed ratio is reported as reference_err_over_bound",
                      "the assembled controller updates every node at every step (examples/pid.rs stops at the first erroring node, which would leave the derivative stream unreset)"],
     ),
+    "C10": dict(
+        run=native, level=EXPL, technique="runtime reference-model monitor (f64 trapezoid sums / difference quotients with propagated forward error bound), unit probing, panic capture, bit-exact shift metamorphic relation",
+        rule="per stream (integral, derivative, three to-state converters) seeded histories of <=64 events with strictly increasing stamps (intervals 1us..2h, a quarter constant-interval), four non-linear signal shapes (random walk, sinusoid, steps, white), interleaved absent/error events; integral/derivative input unit drawn from the 7x7 grid; distinct = (stream, input unit, position of the sample in its run) ; plus exhaustive 3 converters x 49 units x offending-sample position for the panic clause",
+        assumptions=["double quantities follow the staging the code documents (second integral / difference starts at the first sample where the first one exists)",
+                     "forward bound (48+8n)*2^-24*(propagated sum of |terms|), n = samples in the run; largest observed ratio reported per stream/component",
+                     "dimension checking compiled in (debug build) for the panic clause"],
+    ),
 }
 NOT_APPLICABLE = {}
